@@ -227,10 +227,11 @@ def run(ctx):
     def validate(w):
         cmd, out = w
         n, size = vf.count_lines(out), os.path.getsize(out)
-        nparts = max(1, min(vf.NCPU, max(n // 4000, size // 6000000)))
+        # at most 2 x 8 TLC processes of <= 3 GB at a time: the machine is shared (an earlier run with 3 x 16 was hit by the OOM killer)
+        nparts = max(1, min(vf.NCPU // 2, max(n // 4000, size // 6000000)))
         return cmd, out, vf.validate_cases(ctx, "ExtTrace", "ExtTrace.cfg", out, "C16 " + cmd, nparts=nparts,
-                                           heap="4g", timeout=3000)
-    for cmd, out, (rej, total) in vf.parallel(validate, work, nproc=3):
+                                           heap="3g", timeout=3000)
+    for cmd, out, (rej, total) in vf.parallel(validate, work, nproc=2):
         ctx.traces += total - len(rej)
         for p, ln, tr in rej:
             if ln <= 0:
